@@ -20,10 +20,10 @@ CLAIMED = {
    design_ref="2.9",
    note="UDP/TCP and the shared ServeMsg entry are exercised; DoT/DoH/DoQ framing is not (their replies are produced by the same chain entered through ServeMsg); engine header verdicts are checked through the engine's own acceptHeader (overlay shim), not through sockets."),
  "C19": dict(
-   technique="TLA+ spec Serve.tla (ecs and cookies families: EcsForwarded / NeverEcsToClient) model-checked with TLC; behaviours replayed through the real default chain observing the upstream query's OPT at a scripted tail and the client reply's OPT",
+   technique="TLA+ specs Serve.tla (ecs and cookies families: EcsForwarded / NeverEcsToClient) and Ecs.tla (forwarding clamp, scoped storage, audience: EcsLeavesOnlyIfAllowed, ScopedAudience, NeverTooSpecific) model-checked with TLC; behaviours replayed through the real default chain observing the upstream query's OPT at a scripted tail, the client reply's OPT, and which exchange's data each client is served",
    text="For every ECS policy (off/on/invalid), client option kind (v4/v6, over-long, host bits, family 0, bad family), OPT shape and upstream content the check decides: ECS leaves only when enabled, clamped and host-bit free; every other client option is gone upstream; no ECS ever returns to a client.",
    design_ref="2.9",
-   note="Scoped-answer audience / TTL cap / prefetch / shared-denial bypass clauses are covered only through the upecs content class so far (extension planned); client networks are 0.0.0.0/0 and ::/0 in the enabled policy."),
+   note="Ecs.tla adds the forwarding clamp, scoped storage key (ClampScope), longest-prefix audience and the scoped TTL cap over 5 clients x 4 sent lengths x 5 authority scopes x floors 16/24 and policy off, replayed with hit/miss compared to the model (0 drift on the unchanged tree). Not yet covered: 'never background-refreshed' and the shared-denial bypass for ECS/CD trees through alias chases (needs validated denials); IPv6 scopes only through the Serve family; client networks are 0.0.0.0/0."),
  "C01": dict(
    technique="TLA+ spec Dnssec.tla (chain of trust, validation pipeline as actions, one tampering <position,kind>) model-checked exhaustively with TLC (TruthOrServfail, NeverAlteredData, ADImpliesSecure, InsecureOnlyByProof, NoAnchorFailsClosed, ServfailHasEDE, termination); TLC-drawn cases concretised with real keys/signatures in scripted loopback authorities (authkit) and resolved by the real edns+cache+resolver chain, replies judged against the zones' ground truth",
    text="The model enumerates 5 zone kinds x 6 question kinds x 26 tamperings x 8 client flag sets x anchor present/absent (12,480 cases) and proves the pipeline admits only SERVFAIL-or-truth, AD only on a fully secure path toward a client that asked, insecure only by proof, fail-closed without anchors. The replay runs a seeded sample of those cases (all in thorough) end to end, twice each so the second reply comes from the caches the first filled.",
